@@ -31,7 +31,13 @@ proof! {
         assert!(r.read_bool() == Ok(f));
         let fb = u32::from_le_bytes([v[20], v[21], v[22], v[23]]);
         assert!(canonical_bits(fb), "write_f32_le wrote a non-canonical float");
-        assert!(fb == canonicalize_f32(g).to_bits());
+        // the documented canonical form, written out on the bit pattern (not the codec's own helper):
+        // NaN -> 0x7fc00000, +-0 and subnormals -> +0, everything else unchanged
+        let gb = g.to_bits();
+        let (ge, gm) = ((gb >> 23) & 0xff, gb & 0x7f_ffff);
+        let want = if ge == 0xff && gm != 0 { 0x7fc0_0000 } else if ge == 0 { 0 } else { gb };
+        assert!(fb == want, "write_f32_le wrote a value other than the canonical form of its argument");
+        assert!(canonicalize_f32(g).to_bits() == want);
         match r.read_f32_le() { Ok(x) => assert!(x.to_bits() == fb), Err(_) => assert!(false) }
         assert!(r.remaining() == 0);
         assert!(r.read_u8() == Err(CodecError::OutOfBounds));
